@@ -120,8 +120,8 @@ type Conn struct {
 	ClosedAt int64
 	// Accepted is set when a library Accept returned this endpoint.
 	Accepted bool
-	rdl      int64 // virtual read deadline (0 = none)
-	wdl      int64 // virtual write deadline (0 = none)
+	rdl      int64 // virtual read deadline (noDeadline = none)
+	wdl      int64 // virtual write deadline (noDeadline = none)
 	writing  bool  // a Write is in progress (concurrent Writes are serialised, as on *net.TCPConn)
 }
 
@@ -136,8 +136,8 @@ type Chunk struct {
 func (nw *Network) pair(libLocal, libRemote *net.TCPAddr, inbound bool) (lib, rem *Conn) {
 	id := len(nw.Conns) / 2
 	now := vrt.Cur().Now()
-	lib = &Conn{nw: nw, ID: id, Lib: true, local: libLocal, remote: libRemote, Inbound: inbound, Opened: now, ClosedAt: -1}
-	rem = &Conn{nw: nw, ID: id, Lib: false, local: libRemote, remote: libLocal, Inbound: inbound, Opened: now, ClosedAt: -1}
+	lib = &Conn{nw: nw, ID: id, Lib: true, local: libLocal, remote: libRemote, Inbound: inbound, Opened: now, ClosedAt: -1, rdl: noDeadline, wdl: noDeadline}
+	rem = &Conn{nw: nw, ID: id, Lib: false, local: libRemote, remote: libLocal, Inbound: inbound, Opened: now, ClosedAt: -1, rdl: noDeadline, wdl: noDeadline}
 	lib.peer, rem.peer = rem, lib
 	lib.obj = vrt.NewObj("conn-lib")
 	rem.obj = vrt.NewObj("conn-rem")
@@ -145,6 +145,9 @@ func (nw *Network) pair(libLocal, libRemote *net.TCPAddr, inbound bool) (lib, re
 	nw.Conns = append(nw.Conns, lib, rem)
 	return
 }
+
+// noDeadline marks an unset deadline (0 is a legitimate deadline: virtual time starts there).
+const noDeadline = int64(-1) << 62
 
 // Peer returns the other endpoint.
 func (c *Conn) Peer() *Conn { return c.peer }
@@ -180,10 +183,15 @@ func (c *Conn) Pending() int {
 }
 
 func (c *Conn) Read(p []byte) (int, error) {
+	if c.Lib && c.rdl != noDeadline && vrt.Cur().Now() >= c.rdl && !c.closed {
+		// Go's poller refuses the operation once the deadline has passed, data or no data
+		vrt.Wait("net.Conn.Read", "net-read", nil, false, c.obj)
+		return 0, &net.OpError{Op: "read", Net: "tcp", Source: c.local, Addr: c.remote, Err: os.ErrDeadlineExceeded}
+	}
 	vrt.Wait("net.Conn.Read", "net-read", func() bool {
-		return len(c.in) > 0 || c.inEOF || c.rst || c.closed || (c.rdl > 0 && vrt.Cur().Now() >= c.rdl)
+		return len(c.in) > 0 || c.inEOF || c.rst || c.closed || (c.rdl != noDeadline && vrt.Cur().Now() >= c.rdl)
 	}, false, c.obj)
-	if c.rdl > 0 && vrt.Cur().Now() >= c.rdl && len(c.in) == 0 && !c.inEOF && !c.rst && !c.closed {
+	if c.rdl != noDeadline && vrt.Cur().Now() >= c.rdl && len(c.in) == 0 && !c.inEOF && !c.rst && !c.closed {
 		return 0, &net.OpError{Op: "read", Net: "tcp", Source: c.local, Addr: c.remote, Err: os.ErrDeadlineExceeded}
 	}
 	if c.closed {
@@ -221,7 +229,7 @@ func (c *Conn) Write(p []byte) (int, error) {
 	}
 	now := func() int64 { return vrt.Cur().Now() }
 	space := func() int { return win - c.peer.Pending() }
-	expired := func() bool { return c.wdl > 0 && now() >= c.wdl }
+	expired := func() bool { return c.wdl != noDeadline && now() >= c.wdl }
 	// one Write at a time per connection
 	vrt.Wait("net.Conn.Write", "net-write-lock", func() bool { return !c.writing || c.closed || c.rst }, false, c.obj)
 	if c.closed {
@@ -229,6 +237,9 @@ func (c *Conn) Write(p []byte) (int, error) {
 	}
 	c.writing = true
 	defer func() { c.writing = false }()
+	if expired() {
+		return 0, &net.OpError{Op: "write", Net: "tcp", Source: c.local, Addr: c.remote, Err: os.ErrDeadlineExceeded}
+	}
 	written := 0
 	for {
 		vrt.Wait("net.Conn.Write", "net-write", func() bool {
@@ -274,6 +285,10 @@ func (c *Conn) writeUnbounded(p []byte) (int, error) {
 	vrt.Wait("net.Conn.Write", "net-write", nil, false, c.obj, c.peer.obj)
 	if c.closed {
 		return 0, &net.OpError{Op: "write", Net: "tcp", Source: c.local, Addr: c.remote, Err: net.ErrClosed}
+	}
+	if c.wdl != noDeadline && vrt.Cur().Now() >= c.wdl {
+		// a write deadline that has already passed fails the write before a single octet is sent
+		return 0, &net.OpError{Op: "write", Net: "tcp", Source: c.local, Addr: c.remote, Err: os.ErrDeadlineExceeded}
 	}
 	if c.rst {
 		return 0, &net.OpError{Op: "write", Net: "tcp", Source: c.local, Addr: c.remote, Err: syscall.EPIPE}
@@ -357,7 +372,7 @@ func (c *Conn) SetDeadline(t time.Time) error {
 // SetReadDeadline sets a virtual read deadline (zero = none).
 func (c *Conn) SetReadDeadline(t time.Time) error {
 	if t.IsZero() {
-		c.rdl = 0
+		c.rdl = noDeadline
 		return nil
 	}
 	c.rdl = int64(t.Sub(vrt.Epoch))
@@ -367,10 +382,11 @@ func (c *Conn) SetReadDeadline(t time.Time) error {
 	return nil
 }
 
-// SetWriteDeadline sets a virtual write deadline (zero = none); it only matters with a Window.
+// SetWriteDeadline sets a virtual write deadline (zero = none). A write that starts at or after the
+// deadline fails at once; with a Window a blocked write is released at the deadline with a short count.
 func (c *Conn) SetWriteDeadline(t time.Time) error {
 	if t.IsZero() {
-		c.wdl = 0
+		c.wdl = noDeadline
 		return nil
 	}
 	c.wdl = int64(t.Sub(vrt.Epoch))
